@@ -123,8 +123,44 @@ def gen_cond_program(rng, N):
     return objs, threads, {"x0": total, "y0": expect_y}
 
 
+def gen_timed_program(rng, N):
+    """one timed locker (thread 1) polls with a deadline far away (about 200 clock readings under the virtual
+    clock) while >= 2 threads contend with blocking `lock ; add ; yield ; unlock` loops: the mutex word is often 2
+    or 4 (FREE with lockers still queued) while the timed locker polls - every polling iteration must make an
+    attempt and an attempt on a free word must be a CAS"""
+    objs = ["m0 mutex", "x0 var 0"]
+    threads, expect = {}, 0
+    for t in range(N):
+        ops = []
+        if t == 0:
+            ops += ["create %d" % q for q in range(1, N)]
+        if t == 1:
+            if rng.chance(1, 2):
+                ops.append(rng.choice(["yield", "nop"]))
+            ops += ["timedlock m0 %d" % rng.choice([150000, 200000, 300000]), "unlockif m0"]
+        else:
+            for _ in range(rng.rng(3, 6)):
+                d = rng.rng(1, 9)
+                ops += ["lock m0", "add x0 %d" % d, "yield", "unlock m0"]
+                expect += d
+                if rng.chance(1, 3):
+                    ops.append("yield")
+        if t == 0:
+            ops += ["join %d" % q for q in range(1, N)]
+            ops += ["get x0"]
+        threads[t] = ops
+    return objs, threads, {"x0": expect}
+
+
 def gen_case(rng, kind=None, workers=None, pswitch=None):
     kind = kind or ("cond" if rng.chance(1, 4) else "mutex")
+    if kind == "timed":
+        N = rng.rng(4, 6)            # main + timed locker + >= 2 blocking contenders
+        workers = workers or rng.rng(2, 4)
+        pswitch = pswitch or rng.choice([20, 35, 60])
+        objs, threads, expect = gen_timed_program(rng, N)
+        text = trace.case_text(workers, rng.rng(1, 1 << 30), objs, threads, pswitch=pswitch, extra={"clockstep": "1000"})
+        return {"text": text, "kind": kind, "N": N, "workers": workers, "pswitch": pswitch, "expect": expect}
     workers = workers or rng.rng(1, 4)
     pswitch = pswitch or rng.choice([20, 35, 60, 85])
     seed = rng.rng(1, 1 << 30)
@@ -165,6 +201,8 @@ def oracle(case, r):
     mutexes = set(n for n, (k, _) in objs.items() if k == "mutex")
     cur = {}            # thread -> (op words, list of (point id, state before, value) seen in main ctx during the call)
     inq = {}            # object -> members of its sleep queue in the latest snapshot
+    polls = {}          # thread inside a timedlock call -> attempts made in the current polling iteration
+    word = {}           # mutex -> its word in the latest snapshot (of anybody's POINT on it)
     gets = {}           # variable -> last value read by thread 0
     for e in r["events"]:
         T = e.actor
@@ -175,12 +213,30 @@ def oracle(case, r):
                     return "thread t%d runs (%s) while it is in the sleep queue of %s" % (T, e.raw[:80], o)
         if e.kind == "C":
             cur[T] = (e.words, [])
+            if e.words[0] == "timedlock":
+                polls[T] = {"reads": 0, "even_seen": False, "iters": 0}
+        elif e.kind == "E" and e.ctx == "m" and e.words and e.words[0] == "yield.enter" and T in polls:
+            # (a) one polling iteration of timedlock = clock ; attempt ; yield : it must contain an attempt
+            it = polls[T]
+            it["iters"] += 1
+            if it["reads"] == 0:
+                m = cur[T][0][1] if T in cur else "?"
+                w = word.get(m)
+                return ("t%d: polling iteration %d of timedlock %s made no attempt (no mutex.try.read before the yield); "
+                        "last known word of %s = %s%s" % (T, it["iters"], m, m, w,
+                                                          " = FREE with lockers queued" if w is not None and w % 2 == 0 and w > 0 else
+                                                          " = free" if w == 0 else ""))
+            it["reads"] = 0
         elif e.kind == "P":
             pid, obj, val = e.words[0], e.words[1], e.words[2]
             mem = _qmembers(e.snap)
             if mem is not None and (obj in mutexes or objs.get(obj, ("",))[0] == "cond"):
                 inq[obj] = mem
             st = _STATE.search(e.snap or "")
+            if st and obj in mutexes:
+                word[obj] = int(st.group(1))
+            if e.ctx == "m" and T in polls and pid == "mutex.try.read" and T in cur and cur[T][0][1] == obj:
+                polls[T]["reads"] += 1
             if pid == "blockq.enq":
                 if e.ctx != "c":
                     return "%s enqueues itself on %s before its context is saved (blockq.enq outside the callback)" % (val, obj)
@@ -194,6 +250,7 @@ def oracle(case, r):
                 return "mutex.clearbit executed on %s with the lock bit already clear" % obj
         elif e.kind == "R":
             w, seen = cur.pop(T, (None, []))
+            polls.pop(T, None)
             ret = int(e.words[1]) if len(e.words) > 1 and re.match(r"-?\d+$", e.words[1]) else None
             for kv in e.words[2:]:
                 if kv.startswith("occ=") and kv != "occ=1":
@@ -207,6 +264,10 @@ def oracle(case, r):
                 elif w[0] == "timedlock" and ret == ETIMEDOUT:
                     if not reads or reads[-1][1] % 2 == 0:
                         return "t%d: timedlock timed out although its last read saw the lock bit clear" % T
+                    # (b) every attempt that read a free word went for the CAS (it may lose the race, then it reads again)
+                    for k, x in enumerate(seen):
+                        if x[0] == "mutex.try.read" and x[1] % 2 == 0 and not (k + 1 < len(seen) and seen[k + 1][0] == "mutex.try.cas"):
+                            return "t%d: timedlock timed out although an attempt read a free word (%d) and did not try to take it" % (T, x[1])
                 elif ret == 0:
                     if not seen or seen[-1][0] != "mutex.try.cas" or seen[-1][1] % 2 != 0 or str(seen[-1][1]) != seen[-1][2]:
                         return "t%d: %s returned 0 without a successful CAS on an unlocked word (%s)" % (T, w[0], seen[-1:])
@@ -297,11 +358,13 @@ def judge(ctx, cases, exe, drv):
 def run(ctx):
     broken, log = ctx.prove("Properties_C04.v", "Properties_C04")
     exe, drv = build(ctx)
-    n = 420 if not ctx.thorough else 6000
+    n = 300 if not ctx.thorough else 6000
     corpus = load_corpus()
     cases = corpus + [gen_case(ctx.rng) for _ in range(n)]
     # preemption-heavy sweep of the five delicate points (seat CAS, enqueue, -2 CAS, clear, push)
     cases += [gen_case(ctx.rng, kind="mutex", workers=ctx.rng.rng(2, 4), pswitch=85) for _ in range(n // 6)]
+    # timed locker polling against blocking contenders (word 2, 4, .. = free with lockers queued)
+    cases += [gen_case(ctx.rng, kind="timed") for _ in range(40 if not ctx.thorough else 400)]
     results, fails, mism = judge(ctx, cases, exe, drv)
     hist = sync_common.point_histogram(results)
     missing = [p for p in POINTS if not hist.get(p)]
@@ -328,7 +391,7 @@ def run(ctx):
         "cases": len(cases), "corpus_cases": len(corpus), "model_steps_replayed": sum(
             int(m.split()[1]) for r in results for m in r["model"] if m.startswith("ok")),
         "disagreements": len(mism), "oracle_failures": len(fails),
-        "input_distribution_kind": {k: sum(v for kk, v in dist.items() if kk.startswith(k)) for k in ("mutex", "cond")},
+        "input_distribution_kind": {k: sum(v for kk, v in dist.items() if kk.startswith(k)) for k in ("mutex", "cond", "timed")},
         "input_distribution_workers": {str(w): sum(v for kk, v in dist.items() if "/w%d/" % w in kk) for w in (1, 2, 3, 4)},
         "input_distribution_pswitch": {str(p): sum(v for kk, v in dist.items() if kk.endswith("/p%d" % p)) for p in (20, 35, 60, 85)},
         "verdicts": verd, "return_values": rets, "point_histogram": {p: hist.get(p, 0) for p in POINTS},
@@ -343,6 +406,8 @@ def run(ctx):
         "modelled, not verified: sleep-queue enqueue/dequeue as one step each (run under the queue's spinlock), the run queues "
         "(a pushed thread is simply runnable), context save/restore (C03), sequential consistency of the mutex word"]
     if fails:
+        # the most telling witness first (an iteration without attempt while the mutex was free)
+        fails.sort(key=lambda f: 0 if "FREE with lockers queued" in f[2] else 1 if "= free" in f[2] else 2)
         c, r, msg = fails[0]
         ctx.violation("oracle", msg, {"case": c, "observed": {"verdict": r["verdict"], "model": r["model"], "trace": r["trace_path"]},
                                       "expected": "property C04 (see oracle() in tools/props/c04.py)", "level": "library",
